@@ -119,8 +119,9 @@ class Net:
             st.lib.add_own_certificate(st.obj(own[0], oi[0], own_key=own[1]))
             setup_ops.append([4, reg.cert(own[0]), reg.cert(oi[0])])
         for k in known:
-            st.lib.add_authorization_ticket(st.obj(k[0], self.aa[0]))
-            setup_ops.append([3, reg.cert(k[0]), reg.cert(self.aa[0])])
+            ki = k[2] if len(k) > 2 else self.aa       # (ticket, key[, issuing authority])
+            st.lib.add_authorization_ticket(st.obj(k[0], ki[0]))
+            setup_ops.append([3, reg.cert(k[0]), reg.cert(ki[0])])
         ll = CaptureLL()
         router = make_router(ll, mid, ego=ego,
                              mib_kw={"itsGnSecurity": GnSecurity.ENABLED if enabled else GnSecurity.DISABLED},
